@@ -660,3 +660,263 @@ func ruleCounterStateLocked(w *World, r *Run, rule string) {
 		r.Undecided(rule, "counter implementations", "", "no access to mutable counter state found (the inert counter's value map was expected)")
 	}
 }
+
+// ruleDBFileOnlyThroughSQL: the location handed to sql.Open is not also handed to a file-system call that can truncate,
+// replace or remove it (os.Create truncates; os.OpenFile with O_TRUNC, WriteFile, Remove, Rename, Truncate likewise): the
+// durable state of every log lives there, and a process start must find what the last one committed.
+func ruleDBFileOnlyThroughSQL(w *World, r *Run, rule string) {
+	origin := func(v ssa.Value) ssa.Value {
+		for i := 0; i < 4; i++ {
+			switch x := v.(type) {
+			case *ssa.UnOp:
+				v = x.X
+			case *ssa.Convert:
+				v = x.X
+			case *ssa.ChangeType:
+				v = x.X
+			default:
+				return v
+			}
+		}
+		return v
+	}
+	destructive := map[string]int{"os.Create": 0, "os.WriteFile": 0, "os.Remove": 0, "os.RemoveAll": 0, "os.Truncate": 0, "os.Rename": -1, "os.OpenFile": 0, "io/ioutil.WriteFile": 0, "os.Link": -1, "os.Symlink": -1}
+	nOpen := 0
+	for _, fn := range w.prodFns() {
+		srcs := map[ssa.Value]bool{}
+		for _, b := range fn.Blocks {
+			for _, in := range b.Instrs {
+				if c, ok := in.(ssa.CallInstruction); ok && ssaCallName(c.Common()) == "database/sql.Open" && len(c.Common().Args) == 2 {
+					nOpen++
+					srcs[origin(c.Common().Args[1])] = true
+				}
+			}
+		}
+		if len(srcs) == 0 {
+			continue
+		}
+		for _, b := range fn.Blocks {
+			for _, in := range b.Instrs {
+				c, ok := in.(ssa.CallInstruction)
+				if !ok {
+					continue
+				}
+				name := ssaCallName(c.Common())
+				idx, isD := destructive[name]
+				if !isD {
+					continue
+				}
+				for i, a := range c.Common().Args {
+					if (idx == -1 || i == idx) && srcs[origin(a)] {
+						if name == "os.OpenFile" && len(c.Common().Args) >= 2 {
+							// only with a flag that can destroy content
+							if k, isC := c.Common().Args[1].(*ssa.Const); isC && k.Value != nil && k.Int64()&(0x200|0x40) == 0 { // O_TRUNC|O_CREAT (linux)
+								continue
+							}
+						}
+						r.Fail(rule, funcNameOrSSA(outermost(fn))+" | the database location is touched only through database/sql", w.pos(in.Pos()), name+" is applied to the very location handed to sql.Open: it truncates, replaces or removes the file that holds every log's acknowledged checkpoint, so a restart forgets what was witnessed")
+					}
+				}
+			}
+		}
+	}
+	if nOpen == 0 {
+		r.Undecided(rule, "database/sql.Open call sites", "", "none found in production code")
+		return
+	}
+	r.Pass(rule, "module | the database location is touched only through database/sql", "", "")
+}
+
+// ruleFetchURLIsBasePlusPath: the client's HTTP fetcher asks for exactly <base URL><path>: the tile paths it is given are
+// relative to the log's base URL (tlog.Tile.Path is), so the request URL must be the configured base followed by the path
+// — not the path resolved as a reference against the base, which drops the base's own path for a path starting with "/".
+func ruleFetchURLIsBasePlusPath(w *World, r *Run, rule string) {
+	n := 0
+	for _, name := range fetchMethods(w) {
+		mi := strings.LastIndex(name, ").")
+		if mi < 0 {
+			continue
+		}
+		tn := name[strings.LastIndex(name[:mi], ".")+1 : mi]
+		m := ifaceMethod(w, pClient, tn, name[mi+2:])
+		if m == nil {
+			continue
+		}
+		for _, f := range w.implementations(m) {
+			if !w.isProd(f) || f.Synthetic != "" || pkgPathOf(f) != pClient {
+				continue
+			}
+			e := w.engine(4, 1)
+			sums := e.Explore(f)
+			recv := recvParam(f)
+			path := mk("param", f.Params[len(f.Params)-1].Name(), 0, f.Params[len(f.Params)-1].Type())
+			for i := range sums {
+				s := sums[i]
+				pieceCtx = &sums[i]
+				for _, ev := range s.Events {
+					if ev.Kind != "call" {
+						continue
+					}
+					var u *Term
+					switch ev.Callee {
+					case "(*net/http.Client).Get", "net/http.Get", "(*net/http.Client).Head":
+						u = ev.Args[0]
+					case "net/http.NewRequest":
+						u = ev.Args[1]
+					case "net/http.NewRequestWithContext":
+						u = ev.Args[2]
+					}
+					if u == nil {
+						continue
+					}
+					n++
+					pcs := mergeLits(strPieces(u))
+					good := len(pcs) == 2 && pcs[0].k == "str" && pcs[0].t != nil && recv != nil && mentions(pcs[0].t, recv) && pcs[0].t.Kind == "field" && pcs[1].k == "str" && pcs[1].t == path
+					if !good && u.Kind == "call" && u.Name == "net/url.JoinPath" {
+						good = true
+					}
+					r.Check(good, rule, funcName(f)+" | request URL is the configured base URL followed by the path", w.pos(ev.Pos), "the request URL is "+piecesString(pcs)+", not <base URL><path>: a path that starts with '/' resolved as a reference against the base loses the base URL's own path (a log served under a prefix is asked for /tile/… at the host root)")
+				}
+			}
+			pieceCtx = nil
+		}
+	}
+	if n == 0 {
+		r.Undecided(rule, "HTTP fetcher of the client package", "", "no request built in an implementation of the fetch methods was found")
+	}
+}
+
+// ruleRekorProofRequest: the Rekor feeder's consistency-proof request names the two sizes in the right roles and the
+// tree (shard) the log is configured for: api/v1/log/proof?firstSize=<from.Size>&lastSize=<to.Size>&treeID=<configured
+// tree>. Without treeID Rekor answers for the active shard: a log that is an inactive (frozen) shard never gets the proof
+// to its final checkpoint.
+func ruleRekorProofRequest(w *World, r *Run, rule string) {
+	pkg := modPath + "/internal/feeder/rekor"
+	n := 0
+	for _, fn := range w.prodFns() {
+		if pkgPathOf(fn) != pkg || len(fn.Params) != 3 {
+			continue
+		}
+		// the proof fetcher: func(ctx, from, to log.Checkpoint) ([][]byte, error)
+		if typeStr(fn.Params[1].Type()) != "log.Checkpoint" || typeStr(fn.Params[2].Type()) != "log.Checkpoint" {
+			continue
+		}
+		from := mk("param", fn.Params[1].Name(), 0, fn.Params[1].Type())
+		to := mk("param", fn.Params[2].Name(), 0, fn.Params[2].Type())
+		e := w.engine(4, 1)
+		sums := e.Explore(fn)
+		for i := range sums {
+			s := sums[i]
+			pieceCtx = &sums[i]
+			for _, ev := range s.Events {
+				if ev.Kind != "call" || ev.Callee != "(*net/url.URL).Parse" || len(ev.Args) != 1 {
+					continue
+				}
+				pcs := mergeLits(strPieces(ev.Args[0]))
+				if len(pcs) == 0 || pcs[0].k != "lit" || !strings.Contains(pcs[0].lit, "log/proof") {
+					continue
+				}
+				n++
+				// value piece following each "<key>="
+				val := map[string]*piece{}
+				for j := 0; j+1 < len(pcs); j++ {
+					if pcs[j].k != "lit" {
+						continue
+					}
+					for _, k := range []string{"firstSize", "lastSize", "treeID"} {
+						if strings.HasSuffix(pcs[j].lit, k+"=") && pcs[j+1].k != "lit" {
+							p := pcs[j+1]
+							val[k] = &p
+						}
+					}
+				}
+				sizeOf := func(c *Term) *Term { return mk("field", "Size", 0, nil, c) }
+				good, why := true, ""
+				switch {
+				case val["firstSize"] == nil || val["firstSize"].t == nil || !mentions(val["firstSize"].t, sizeOf(from)):
+					good, why = false, "firstSize is not the size of the checkpoint the witness holds (from.Size)"
+				case val["lastSize"] == nil || val["lastSize"].t == nil || !mentions(val["lastSize"].t, sizeOf(to)):
+					good, why = false, "lastSize is not the size of the checkpoint being submitted (to.Size)"
+				case val["treeID"] == nil || val["treeID"].t == nil:
+					good, why = false, "the request carries no treeID: Rekor then answers for its active shard, whichever log this feeder is configured for"
+				}
+				r.Check(good, rule, funcNameOrSSA(outermost(fn))+" | proof request names first size, last size and the configured tree", w.pos(ev.Pos), why+" (request "+piecesString(pcs)+")")
+			}
+		}
+		pieceCtx = nil
+	}
+	if n == 0 {
+		r.Undecided(rule, pkg+" | proof request", "", "no request for api/v1/log/proof found in a proof fetcher of the Rekor feeder")
+	}
+}
+
+// ruleFeedLogFailsOnlyOnConfig: a feeder's FeedLog returns an error of its own (as opposed to the result of the feed loop
+// or of the one-shot feed) only for what it can tell from its configuration. Main runs every feeder in one error group: an
+// error returned because a start-up fetch met an unhealthy log front end would stop the HTTP server and every other
+// feeder. So no path that returns such an error has fetched anything.
+func ruleFeedLogFailsOnlyOnConfig(w *World, r *Run, rule string) {
+	fr := feederRegistry(w)
+	fetchNames := map[string]bool{}
+	for _, n := range fetchMethods(w) {
+		fetchNames[n] = true
+	}
+	n := 0
+	for _, impl := range fr.impl {
+		if impl == nil || impl.Kind != "func" {
+			continue
+		}
+		fn := w.funcs[impl.Name]
+		if fn == nil {
+			fn = w.fn(impl.Name)
+		}
+		if fn == nil {
+			continue
+		}
+		sums, _, ok := exploreOpaque(w, r, rule, funcName(fn), 5, 1, fnRun, fnFeedOnce)
+		if !ok {
+			continue
+		}
+		for _, s := range sums {
+			if s.Panic || len(s.Rets) != 1 {
+				continue
+			}
+			if len(calls(s, fnRun, fnFeedOnce)) > 0 {
+				continue // the loop's or the one-shot feed's own result
+			}
+			if s.Rets[0].Kind == "nil" {
+				continue
+			}
+			n++
+			var io *Event
+			for i := range s.Events {
+				ev := s.Events[i]
+				if ev.Kind != "call" || ev.AtExit {
+					continue
+				}
+				isIO := false
+				switch {
+				case fetchNames[ev.Callee]:
+					isIO = true
+				case strings.HasPrefix(ev.Callee, "(*net/http.Client).") || ev.Callee == "net/http.Get" || ev.Callee == "net/http.Post" || ev.Callee == "os.ReadFile" || ev.Callee == "os.Open":
+					isIO = true
+				case ev.Callee == "dyn" && ev.Res != nil && ev.Res.Typ != nil:
+					if tup, ok := ev.Res.Typ.(*types.Tuple); ok && tup.Len() == 2 && isByteSlice(tup.At(0).Type()) {
+						isIO = true // a fetcher function value: (…) ([]byte, error)
+					}
+				}
+				if isIO && io == nil {
+					io = &s.Events[i]
+				}
+			}
+			where := w.pos(s.RetPos)
+			msg := ""
+			if io != nil {
+				msg = "FeedLog returns an error of its own after fetching (" + short(io.Callee) + " at " + w.pos(io.Pos) + "): a log whose front end is unhealthy at start-up takes the whole witness down through the error group, although nothing is wrong with the configuration"
+			}
+			r.Check(io == nil, rule, funcName(fn)+" | an error of FeedLog's own depends on configuration only", where, msg)
+		}
+	}
+	if n < 3 {
+		r.Undecided(rule, "FeedLog implementations", "", "fewer than three configuration-error returns found across the registered feeders")
+	}
+}
